@@ -22,7 +22,7 @@ var (
 func fragmentLayout(c *Ctx, fnName string, table []string, what, prefix string, wantBuffers int) int {
 	fn := c.Prog.Func(fnName)
 	if fn == nil {
-		c.R.Fatalf("anchor %s missing", fnName)
+		missingAnchor(c.R, fnName)
 		return 0
 	}
 	es := loopEmits(c, fn)
